@@ -105,6 +105,13 @@ def perturb_bytes(rng, data, noise=0.25):
         lines.insert(i, b"-- caf\xe9 \xb5s")
         data = b"\n".join(lines)
         tags.append("latin1")
+    elif r < 0.18:
+        # valid UTF-8 beyond ASCII (some of it beyond Latin-1 too): must come back as UTF-8
+        lines = data.split(b"\n")
+        i = rng.randrange(len(lines))
+        lines.insert(i, rng.choice(["-- café µs", "-- Größe → ✓", "-- température ≤ 85 °C"]).encode("utf-8"))
+        data = b"\n".join(lines)
+        tags.append("utf8")
     r = rng.random()
     if r < noise:
         data = layout_noise(rng, data)
